@@ -1223,7 +1223,8 @@ def _only_compared_with_expiry(fx, k, t):
     t = same[0][1]
     sinks = set()
     for (i, tt) in b.calls():
-        if callee_name(tt) in ("std::cmp::PartialOrd::lt", "std::cmp::PartialOrd::le", "std::cmp::PartialOrd::gt", "std::cmp::PartialOrd::ge") \
+        if callee_name(tt) in ("std::cmp::PartialOrd::lt", "std::cmp::PartialOrd::le", "std::cmp::PartialOrd::gt", "std::cmp::PartialOrd::ge",
+                               "std::cmp::Ord::cmp", "std::cmp::PartialOrd::partial_cmp") \
                 and len(tt["args"]) == 2:
             for ai in (0, 1):
                 lv = b.trace(tt["args"][1 - ai])
